@@ -1456,7 +1456,14 @@ fn bfs_states(cfg: &dyn DynCfg, depth: usize, rdepth: usize, seed: u64) -> Resul
 
 fn main() {
     vpcore::install_quiet_panic_hook();
-    let ctx = Ctx::from_args("C06", "fault_enumeration");
+    let mut ctx = Ctx::from_args("C06", "fault_enumeration");
+    // A full quick run takes about 35 s on an idle 16-core machine; the default 45 s budget leaves
+    // too little room on a busy one (the deepest histories are the first to go). 55 s unless the
+    // caller chose a budget.
+    if ctx.quick() && ctx.budget == std::time::Duration::from_secs(45) && !std::env::args().any(|a| a == "--budget-s") {
+        ctx.budget = std::time::Duration::from_secs(55);
+    }
+    let ctx = ctx;
     let report = Report::new();
     let insts = all_instances();
 
@@ -1502,7 +1509,7 @@ fn main() {
     }
     let prove_all = ctx.opt("prove") == Some("all");
     FULL_PUBLIC_FAULTS.store(!ctx.quick(), Ordering::Relaxed);
-    // soft cap: leave room for the proofs in flight and the evidence (quick: 45 s * 0.93 = 41.8 s; one history takes < 1 s)
+    // soft cap: leave room for the proofs in flight and the evidence (quick: 55 s * 0.93 = 51 s; one history takes < 1 s)
     let cap = if ctx.quick() { 0.93 } else { 0.92 };
     let over = || ctx.used() >= cap;
 
